@@ -1,4 +1,5 @@
 import SR.Proofs.HashUniv
+import SR.Proofs.HashEquivB
 /-!
 # C04 — state identity is faithful
 
@@ -120,6 +121,36 @@ theorem C04_state (hinj : InjOnP h P) (s m t r hist : Ty) (st st' : Val (Ty.stat
     Equiv (.vec .bool) st.2.2.2.2.1 st'.2.2.2.2.1 ∧                      -- crashed
     Equiv (.choices r) st.2.2.2.2.2 st'.2.2.2.2.2 :=                     -- random_choices (pending ones)
   C04_inj h P hinj _ st st' w w' e
+
+/-! ## equality
+
+`equivB τ` is the executable `==` of the universe: it composes exactly like the `PartialEq` impls of the code —
+field by field for tuples/structs, element by element for sequences, as sets/maps for the hash tables
+(`HashSet::eq`/`HashMap::eq`), `VectorClock::eq` (the model `VClock.veq` shared with C20) for clocks, and for
+`ActorModelState` the manual `eq`: actor_states, history, timers_set, network, crashed and the PENDING choices
+`(index, map)` compared as sequences. It is what the correspondence oracle runs against the implementation's `==`. -/
+
+/-- `==` decides `≈τ`. -/
+theorem C04_eq_decides (hinj : InjOnP h P) (τ : Ty) (a b : Val τ) (wa : WF h P τ a) (wb : WF h P τ b) :
+    equivB τ a b = true ↔ Equiv τ a b :=
+  ⟨equivB_sound τ a b, equivB_complete h P hinj τ a b wa wb⟩
+
+/-- Identity is one notion: two values are `==` exactly when they feed the same byte stream — equal ones never
+split, distinct ones never merge. -/
+theorem C04_eq_iff_stream (hinj : InjOnP h P) (τ : Ty) (a b : Val τ) (wa : WF h P τ a) (wb : WF h P τ b) :
+    equivB τ a b = true ↔ flat (toks h τ a) = flat (toks h τ b) :=
+  (C04_eq_decides h P hinj τ a b wa wb).trans (C04_stream_iff h P hinj τ a b wa wb).symm
+
+/-- `ActorModelState`: `st == st'` ⇔ same byte stream ⇔ they agree on all six components
+(actor states, history, timers, network, crash flags, pending random choices). -/
+theorem C04_eq_iff (hinj : InjOnP h P) (s m t r hist : Ty) (st st' : Val (Ty.state s m t r hist))
+    (w : WF h P _ st) (w' : WF h P _ st') :
+    (equivB _ st st' = true ↔ flat (toks h _ st) = flat (toks h _ st')) ∧
+    (equivB _ st st' = true ↔
+      Equiv (.vec (.arc s)) st.1 st'.1 ∧ Equiv hist st.2.1 st'.2.1 ∧
+      Equiv (.vec (Ty.timers t)) st.2.2.1 st'.2.2.1 ∧ Equiv (Ty.net m) st.2.2.2.1 st'.2.2.2.1 ∧
+      Equiv (.vec .bool) st.2.2.2.2.1 st'.2.2.2.2.1 ∧ Equiv (.choices r) st.2.2.2.2.2 st'.2.2.2.2.2) :=
+  ⟨C04_eq_iff_stream h P hinj _ st st' w w', C04_eq_decides h P hinj _ st st' w w'⟩
 
 /-! ## the hypotheses are satisfiable on a concrete, non-trivial instance
 
